@@ -322,6 +322,11 @@ def check_delivery(col: Collector, key: str, con: str, rel: str, cmds: List[Cmd]
     for c in cmds:
         for k, v in c.node.assignments:
             assigns.setdefault(k, []).append((v, c))
+        if c.node.name in ("export", "declare", "readonly", "local"):
+            for a_ in c.node.args:
+                m_ = re.match(r"^([A-Za-z_][A-Za-z0-9_]*)=(.*)$", a_, re.S)
+                if m_:
+                    assigns.setdefault(m_.group(1), []).append((m_.group(2), c))
     after = [c for c in run_steps if c.order > job.order]
     def reaches_destination(text: str, depth: int = 0) -> bool:
         """the text names $destination, directly or through a variable that was assigned from it ($converted = $destination)"""
@@ -361,12 +366,21 @@ def check_delivery(col: Collector, key: str, con: str, rel: str, cmds: List[Cmd]
                         f"`{var}=...$destination...` is prepared at line {c.node.line} but `eval ${var}` does not follow under the same conditions "
                         f"({len(ran)} found): nothing is delivered on that path and the script still exits 0", f"{rel}:{c.node.line}")
     # the delivery command is a plain copy: flags such as -n / -u / -i keep an existing (older) file at the destination
-    cmds_assigned = [v.strip('"\'') for v, c in assigns.get("cmd", [])]
+    # (the variable that holds it: the one whose value is the command word of a delivery step)
+    cmd_vars = {c.node.name[1:].strip("{}") for c in deliver if c.node.name.startswith("$")} or {"cmd"}
+    cmds_assigned = [v.strip('"\'') for cv_ in sorted(cmd_vars) for v, c in assigns.get(cv_, [])]
     col.add("C16.R6", con, "delivery-command-overwrites", bool(cmds_assigned) and all(v in ("cp", "xrdcp", "xrdcp -f", "cp -f") for v in cmds_assigned),
             f"the copy command is one of {sorted(set(cmds_assigned))}: it must overwrite the destination (`cp -n` exits 0 and leaves the previous run's "
             "ANALYSIS.root in place)", rel)
     # destination derives from $output_dir under output_method == cp
-    dests = [(v, c) for v, c in assigns.get("destination", []) if has_guard(c, '[ $output_method == "cp" ]', True)]
+    def expand_consts(text: str) -> str:
+        """variables with one literal value in the whole script read as that value ($CMS_OUTPUT_FILE is ANALYSIS.root)"""
+        for var_, lst_ in assigns.items():
+            vals_ = {v_.strip('"\'') for v_, _ in lst_}
+            if len(vals_) == 1 and len(lst_) == 1 and not re.search(r"[$`\s]", next(iter(vals_))):
+                text = re.sub(r"\$\{" + re.escape(var_) + r"\}|\$" + re.escape(var_) + r"\b", next(iter(vals_)), text)
+        return text
+    dests = [(expand_consts(v), c) for v, c in assigns.get("destination", []) if has_guard(c, '[ $output_method == "cp" ]', True)]
     ok = bool(dests) and all(v in ("$output_dir", "$output_dir/ANALYSIS.root") for v, _ in dests)
     col.add("C16.R6", con, "destination-from-output_dir", ok,
             f"with the default output method the destination must be $output_dir (or $output_dir/ANALYSIS.root): {[v for v, _ in dests]}", rel)
@@ -393,5 +407,5 @@ def check_delivery(col: Collector, key: str, con: str, rel: str, cmds: List[Cmd]
         col.add("C16.R6", con, "previous-submission-dir-removed-before-job", ok,
                 "the EventLoop submission directory of an earlier -r run must be removed before the job (EventLoop refuses an existing one)", rel)
         d = [c for c in deliver if "./bogus/data-ANALYSIS/ANALYSIS.root" in c.node.args]
-        col.add("C16.R6", con, "delivers-this-run's-file", len(d) == 1 and d[0].node.name == "$cmd",
+        col.add("C16.R6", con, "delivers-this-run's-file", len(d) == 1 and d[0].node.name.startswith("$"),
                 "delivery must copy ./bogus/data-ANALYSIS/ANALYSIS.root of this run", rel)
